@@ -105,17 +105,21 @@ rfbTranslateWithRGBTables24to24 (char *table, rfbPixelFormat *in,
     uint8_t *redTable = (uint8_t *)table;
     uint8_t *greenTable = redTable + 3*(in->redMax + 1);
     uint8_t *blueTable = greenTable + 3*(in->greenMax + 1);
-    uint32_t outValue,inValue;
+    uint32_t inValue;
+    const uint8_t *r, *g, *b;
 
     while (height > 0) {
         opLineEnd = op+3*width;
 
         while (op < opLineEnd) {
 	    inValue = RFB_LOAD24(ip);
-            outValue = (redTable[(inValue >> in->redShift) & in->redMax] |
-                       greenTable[(inValue >> in->greenShift) & in->greenMax] |
-                       blueTable[(inValue >> in->blueShift) & in->blueMax]);
-	    memcpy(op,&outValue,3);
+            /* the tables hold 3-byte entries, already in the client's byte order */
+            r = redTable + 3*((inValue >> in->redShift) & in->redMax);
+            g = greenTable + 3*((inValue >> in->greenShift) & in->greenMax);
+            b = blueTable + 3*((inValue >> in->blueShift) & in->blueMax);
+            op[0] = r[0] | g[0] | b[0];
+            op[1] = r[1] | g[1] | b[1];
+            op[2] = r[2] | g[2] | b[2];
 	    op += 3;
             ip+=3;
         }
@@ -256,16 +260,19 @@ rfbTranslateWithRGBTablesINto24 (char *table, rfbPixelFormat *in,
     uint8_t *redTable = (uint8_t *)table;
     uint8_t *greenTable = redTable + 3*(in->redMax + 1);
     uint8_t *blueTable = greenTable + 3*(in->greenMax + 1);
-    uint32_t outValue;
+    const uint8_t *r, *g, *b;
 
     while (height > 0) {
         opLineEnd = op+3*width;
 
         while (op < opLineEnd) {
-            outValue = (redTable[(*ip >> in->redShift) & in->redMax] |
-                       greenTable[(*ip >> in->greenShift) & in->greenMax] |
-                       blueTable[(*ip >> in->blueShift) & in->blueMax]);
-	    memcpy(op,&outValue,3);
+            /* the tables hold 3-byte entries, already in the client's byte order */
+            r = redTable + 3*((*ip >> in->redShift) & in->redMax);
+            g = greenTable + 3*((*ip >> in->greenShift) & in->greenMax);
+            b = blueTable + 3*((*ip >> in->blueShift) & in->blueMax);
+            op[0] = r[0] | g[0] | b[0];
+            op[1] = r[1] | g[1] | b[1];
+            op[2] = r[2] | g[2] | b[2];
 	    op += 3;
             ip++;
         }
